@@ -3607,6 +3607,14 @@ class NetCDFRead(IORead):
         if g["CF>=1.8"]:
             geometry = self.implementation.del_property(f, "geometry", None)
             if geometry:
+                if g["has_groups"]:
+                    # Replace the flattened name of the geometry
+                    # container variable with its absolute path, so
+                    # that its groups are recorded
+                    geometry = g["flattener_variables"].get(
+                        geometry, geometry
+                    )
+
                 self.implementation.nc_set_geometry_variable(f, geometry)
 
         # Map netCDF dimension names to domain axis identifiers.
